@@ -45,6 +45,25 @@ def truth(t):
     return None
 
 
+NEVER_NONE_CALLS = frozenset((
+    'int', 'str', 'len', 'range', 'float', 'bool', 'list', 'tuple', 'dict', 'set', 'sorted',
+    'repr', 'abs', 'enumerate', 'zip', 'os.path.join', 'os.path.basename', 'os.path.dirname',
+    'os.path.abspath', 'os.path.realpath', 'os.path.normpath', 'os.getuid', 'os.listdir'))
+
+
+def never_none(x):
+    """The value is the result of a builtin that has no None result, or an element of a
+    sequence of such results (range: ints; os.listdir: names; enumerate: pairs)."""
+    if isinstance(x, Call):
+        return x.fn in NEVER_NONE_CALLS
+    if isinstance(x, Elem):
+        c = x.container
+        while isinstance(c, Phi) and len(c.alts) == 1:
+            c = c.alts[0][0]
+        return isinstance(c, Call) and c.fn in ('range', 'enumerate', 'zip', 'os.listdir')
+    return isinstance(x, (Index, Bin))
+
+
 class ExprMixin(object):
     def ev(self, e):
         m = getattr(self, 'ev_' + type(e).__name__, None)
@@ -163,6 +182,8 @@ class ExprMixin(object):
         return Bin(op, l, r)
 
     def as_fmt(self, t):
+        while isinstance(t, Phi) and len(t.alts) == 1:
+            t = t.alts[0][0]
         if isinstance(t, Const) and isinstance(t.value, str):
             return t.value.replace('%', '%%'), ()
         if isinstance(t, Fmt):
@@ -303,9 +324,11 @@ class ExprMixin(object):
                     return False
             solid = (Obj, ClsRef, EnumVal, FuncRef, Bound, ListObj, DictObj, TupleT, ExcVal,
                      LambdaRef, GenObj, Fmt)
-            if isinstance(a, Const) and a.value is None and isinstance(b, solid):
+            if isinstance(a, Const) and a.value is None and \
+                    (isinstance(b, solid) or never_none(b)):
                 return False
-            if isinstance(b, Const) and b.value is None and isinstance(a, solid):
+            if isinstance(b, Const) and b.value is None and \
+                    (isinstance(a, solid) or never_none(a)):
                 return False
             if isinstance(a, EnumVal) and isinstance(b, Const):
                 return False
@@ -461,6 +484,9 @@ class ExprMixin(object):
                 # "alias = method" in the class body: a function of the class, looked
                 # up on an instance, is a bound method
                 return Bound(obj, v.func)
+            if isinstance(v, FuncRef) and v.closure is None and v.func.cls is not None and \
+                    v.func.kind == 'class':
+                return Bound(ClsRef(obj.cls), v.func)      # alias of a classmethod
             return v
         if kind == 'nested':
             return ClsRef(payload)
@@ -507,7 +533,11 @@ class ExprMixin(object):
                 return Bound(ClsRef(cls), payload)
             return FuncRef(payload, None)      # unbound function
         if kind == 'attr':
-            return self.class_level_value(owner, name, payload)
+            v = self.class_level_value(owner, name, payload)
+            if isinstance(v, FuncRef) and v.closure is None and v.func.cls is not None and \
+                    v.func.kind == 'class':
+                return Bound(ClsRef(cls), v.func)          # alias of a classmethod
+            return v
         if kind == 'nested':
             return ClsRef(payload)
         return Attr(ClsRef(cls), name)
@@ -610,11 +640,15 @@ class ExprMixin(object):
     def ev_GeneratorExp(self, e):
         """A generator expression that is not consumed on the spot (see ev_Call) is a
         lazy generator: an anonymous generator function closed over the frame."""
+        # (the outermost iterable is evaluated where the expression stands, as Python
+        # does; the rest when the generator is consumed)
+        first = self.ev(e.generators[0].iter)
         body = ast.Expr(ast.Yield(e.elt))
-        for gen in reversed(e.generators):
+        for i, gen in reversed(list(enumerate(e.generators))):
             for cond in reversed(gen.ifs):
                 body = ast.If(cond, [body], [])
-            body = ast.For(gen.target, gen.iter, [body], [], None)
+            body = ast.For(gen.target, gen.iter if i else ast.Name('.0', ast.Load()),
+                           [body], [], None)
         fn = ast.FunctionDef('<genexpr>', ast.arguments([], [], None, [], [], None, []),
                              [body], [], None, None)
         try:
@@ -631,7 +665,14 @@ class ExprMixin(object):
         fi.is_generator = True
         line = getattr(e, 'lineno', 0)
         stack = self.frame.stack + ((self.frame.qualname, self.frame.module.relpath, line),)
-        fr = Frame(fi, self.frame.module, Env(self.frame.env), stack, self.frame.depth + 1)
+        # the free names are those of the frame as it is here: the frame's variable
+        # table is replaced at every join of the enclosing function (a name bound in the
+        # branch that returns the generator would be gone when it is consumed)
+        here = Env(self.frame.env.parent)
+        here.vars = dict(self.frame.env.vars)
+        env = Env(here)
+        env.vars['.0'] = first
+        fr = Frame(fi, self.frame.module, env, stack, self.frame.depth + 1)
         fr.caught = []
         fr.is_gen = True
         g = GenObj(fi, fr, self.cur)
